@@ -13,6 +13,8 @@ Flags:
   resend       a retransmitter for opening_tx_broadcasted is active (volatile)
   suspicious   the peer was written to the suspicious-peer list
   unknownAct   an action chain without a summary was executed
+  agreementRec the persisted record holds the peer's swap_in_agreement (a second one is refused with
+               AlreadyExists before anything else happens)
 
 `Env` restricts the environment:
   crashInBroadcast    the process can die between the wallet's broadcast and the persist that follows
@@ -42,6 +44,7 @@ def csvWatch (f : F) := f.bit 6
 def resend (f : F) := f.bit 7
 def suspicious (f : F) := f.bit 8
 def unknownAct (f : F) := f.bit 9
+def agreementRec (f : F) := f.bit 10
 def setOpeningRec (f : F) (b : Bool) := f.setBit 2 b
 def setInvoicePaid (f : F) (b : Bool) := f.setBit 3 b
 def setSpentBack (f : F) (b : Bool) := f.setBit 4 b
@@ -50,10 +53,13 @@ def setCsvWatch (f : F) (b : Bool) := f.setBit 6 b
 def setResend (f : F) (b : Bool) := f.setBit 7 b
 def setSuspicious (f : F) (b : Bool) := f.setBit 8 b
 def setUnknownAct (f : F) (b : Bool) := f.setBit 9 b
+def setAgreementRec (f : F) (b : Bool) := f.setBit 10 b
 def init : F := ⟨0⟩
 end F
 
 structure Env where
+  /-- track the persisted swap_in_agreement (only the swap-in initiator ever accepts that event) -/
+  trackAgreement : Bool
   crashInBroadcast : Bool
   scriptFails : Bool
   policyFails : Bool
@@ -128,16 +134,18 @@ def extEvents : List Ev :=
 
 /-- event guards: the claim-paid notification needs a paid invoice, the CSV callback needs a registered
     watch; an `opening_tx_broadcasted` from the peer is applied to the record before the table rejects it -/
-def applyCtx (ev : Ev) (f : F) : Option F :=
+def applyCtx (e : Env) (ev : Ev) (f : F) : Option F :=
   -- (a notification before any invoice exists is possible in principle and hits no table edge)
   if ev == E_OnClaimInvoicePaid then (if f.invoicePaid || f.openings == 0 then some f else none)
   else if ev == E_OnCsvPassed then (if f.csvWatch then some (f.setCsvWatch false) else none)
+  else if ev == E_SwapInSender_OnAgreementReceived && e.trackAgreement then
+    (if f.agreementRec then none else some (f.setAgreementRec true))
   else if ev == E_OnTxOpenedMessage then (if f.openingRec then none else some (f.setOpeningRec true))
   else some f
 
 def sys (tb : List Row) (e : Env) : Sys F :=
   { table := tb
-    applyCtx := applyCtx
+    applyCtx := applyCtx e
     outcomes := outcomes e
     crashIn := crashIn e
     restart := fun f => (f.setCsvWatch false).setResend false
